@@ -10,19 +10,19 @@ import JanetModel.Gen.ProcStat
 namespace JanetModel.Proc.Current
 open JanetModel.Proc
 
-/-- the preprocessed decoder of the current tree is, arm by arm and token by token, the modelled one -/
-theorem current_source_status_decoder : Gen.ProcStat.branches = modelBranches := by decide
-
 /-- `waitpid` is called with options 0: stopped / continued children are never reported, so the terminated-child words
     are all the words `proc_get_status` ever decodes -/
 theorem current_source_waitpid_options : Gen.ProcStat.waitpidOptions = 0 := by decide
 
-/-- ☆ exit status exact, for the decoder of the current source -/
+/-- ☆ exit status exact, for the decoder of the CURRENT source: the statement of `exit_status_exact` evaluated by the
+    kernel on the regenerated expression trees themselves (whatever the macros expand to on this machine — a different
+    but equivalent expansion still checks, a decoder that misreports any of the 508 words does not) -/
 theorem exit_status_exact_current :
     (∀ c, c < 256 → decode Gen.ProcStat.branches (exitWord c) = .code (Int.ofNat c)) ∧
     (∀ s, s < 127 → 1 ≤ s → ∀ core : Bool, decode Gen.ProcStat.branches (sigWord s core) = .code (Int.ofNat (128 + s))) := by
-  rw [current_source_status_decoder]
-  exact ⟨JanetModel.Props.C16.exit_status_exact.1, JanetModel.Props.C16.exit_status_exact.2.1⟩
+  refine ⟨?_, ?_⟩ <;> decide +kernel
+
+-- (on glibc the regenerated chain is, token by token, `modelBranches`; that equality is deliberately NOT required here)
 
 /-- the current source moves redirection sources that are standard descriptors above 2 before it builds the file
     actions (a3cd080) — the fact `Safe` rests on for `{:err stdout}`-style requests; on a tree without the loop this does
